@@ -286,6 +286,35 @@ def unique_probe(ctx, rng, npr):
                      "data with the labels of those rows: max |diff| %.3g" % (Dm.max() if Dm.nnz else 0.0), desc)
 
 
+def refit_probe(ctx, rng, npr):
+    """one estimator object fitted repeatedly: with labels, then without, then with other labels / another target_weight -- every fit
+    must give the graph a fresh estimator gives (no supervised state may survive a refit)"""
+    for rep in range(2 if ctx.tier == "quick" else 8):
+        case = gen_case(rng, npr)
+        if case["kind"] == "all_unknown": case["y"] = npr.randint(0, 3, size=case["n"]).astype(np.int64)
+        X, y, w = case["X"], case["y"], case["w"]
+        y2, _ = gen_renaming(rng, np.roll(y, 3))
+        w2 = rng.choice([v for v in WEIGHTS if v != w])
+        kw = dict(n_neighbors=case["k"], metric=case["metric"], n_epochs=0, init="random", random_state=1)
+        desc = dict(api="refit of one estimator", n=case["n"], k=case["k"], metric=case["metric"], w=w, w2=w2, X=X, y=y, y2=y2)
+        try:
+            est = umap.UMAP(target_weight=w, **kw)
+            g1 = canon(est.fit(X, y).graph_)
+            g2 = canon(est.fit(X).graph_)
+            est.set_params(target_weight=w2)
+            g3 = canon(est.fit(X, y2).graph_)
+            f1 = canon(umap.UMAP(target_weight=w, **kw).fit(X, y).graph_)
+            f2 = canon(umap.UMAP(target_weight=w, **kw).fit(X).graph_)
+            f3 = canon(umap.UMAP(target_weight=w2, **kw).fit(X, y2).graph_)
+        except Exception as e:
+            ctx.fail("UMAP.fit(refit):raises", "%s: %s" % (type(e).__name__, e), desc); continue
+        ctx.evaluations += 3
+        ctx.tag(("refit", X.tobytes(), y.tobytes(), w, w2), ["refit_same_estimator"])
+        for what, a, b in (("first fit (X, y)", g1, f1), ("refit without y", g2, f2), ("refit with other labels and target_weight", g3, f3)):
+            if not same_bits(a, b):
+                ctx.fail("UMAP.fit(refit).graph_:differs_from_fresh_estimator", "%s: graph differs from the graph of a fresh estimator with the same arguments" % what, desc); break
+
+
 def _phase(ctx, name, t0):
     import time
     ctx.extra.setdefault("phase_s", {})[name] = round(time.time() - t0, 1)
@@ -334,6 +363,7 @@ def run(ctx):
         if out is not None:
             terms.append(out[0]); cases.append(out[1])
     unique_probe(ctx, rng, npr)
+    refit_probe(ctx, rng, npr)
     t0 = _phase(ctx, "implementation+oracle", t0)
     shard = 15
     hdr = ("From Coq Require Import List ZArith PrimFloat. From UV Require Import Num FNum M_supervised V_supervised.\n"
